@@ -1,2 +1,335 @@
-(* Sequential refinement (C02, C05, C14). *)
-From Flurry Require Import Model.Spec.
+(* Sequential refinement (C02, C05, C14, C18): the single-threaded model of Model/Seq.v refines the
+   abstract map of Model/Spec.v and keeps the well-formedness of Model/WF.v.
+   The facts about red-black tree bins that are used are hypotheses of Section TreeFacts
+   (they are proved in Proofs/RBProofs.v); list and table lemmas are in Proofs/SeqLemmas.v. *)
+From Flurry Require Import Model.Spec Proofs.ArithProofs Proofs.SeqLemmas.
+From Coq Require Import Permutation Lia ZArith NArith List Bool.
+Import ListNotations.
+Open Scope Z_scope.
+Ltac Zify.zify_post_hook ::= Z.div_mod_to_equations.
+
+Arguments N.land : simpl never.
+Arguments N.ones : simpl never.
+Arguments N.pow : simpl never.
+Arguments Z.pow : simpl never.
+Arguments N.testbit : simpl never.
+Arguments Z.of_nat : simpl never.
+Arguments Z.to_N : simpl never.
+
+(* ------------------------------------------------------------------------------------------ *)
+(** * Arithmetic of the regenerated definitions, in the form used below *)
+
+Lemma lf_pos n : 1 <= n -> 1 <= load_factor n.
+Proof. intros H. rewrite load_factor_eq. lia. Qed.
+
+Lemma lf_double n : 0 <= n -> load_factor n <= load_factor (2 * n).
+Proof. intros H. rewrite !load_factor_eq. lia. Qed.
+
+Lemma next_threshold_pow2 (j : nat) :
+  (j < 30)%nat -> next_threshold (2 ^ Z.of_nat j) = load_factor (2 * 2 ^ Z.of_nat j).
+Proof.
+  intros Hj. assert (Hb : 0 <= 2 ^ Z.of_nat j < 2 ^ 61).
+  { split; [apply Z.pow_nonneg; lia|]. apply Z.pow_lt_mono_r; lia. }
+  destruct (next_threshold_eq (2 ^ Z.of_nat j) Hb) as [E1 E2].
+  - destruct j as [|j]; [right; reflexivity|left].
+    rewrite Nat2Z.inj_succ, Z.pow_succ_r by lia. rewrite Z.even_mul. reflexivity.
+  - rewrite E1, E2. reflexivity.
+Qed.
+
+(* both capacity roundings yield a legal table length, whatever the argument *)
+Lemma capacity_round_pow2 c :
+  exists j : nat, (j <= 30)%nat /\ capacity_round_try_presize c = 2 ^ Z.of_nat j.
+Proof.
+  unfold capacity_round_try_presize. rewrite MAXIMUM_CAPACITY_eq.
+  destruct (Z.geb_spec c (2 ^ 30 / 2)).
+  - exists 30%nat. split; [lia|reflexivity].
+  - cbv zeta. destruct (next_pow2_is_pow2 (c + Z.shiftr c 1 + 1)) as (j & Hj & E).
+    rewrite E. destruct (Z.le_gt_cases (2 ^ j) (2 ^ 30)) as [Hle|Hgt].
+    + rewrite Z.min_r by assumption. exists (Z.to_nat j). rewrite Z2Nat.id by exact Hj.
+      split; [|reflexivity]. apply Z.pow_le_mono_r_iff in Hle; lia.
+    + rewrite Z.min_l by lia. exists 30%nat. split; [lia|reflexivity].
+Qed.
+
+Lemma pow2_max (a b : nat) : Z.max (2 ^ Z.of_nat a) (2 ^ Z.of_nat b) = 2 ^ Z.of_nat (Nat.max a b).
+Proof.
+  destruct (Nat.le_ge_cases a b) as [H|H].
+  - rewrite Nat.max_r by exact H. apply Z.max_r. apply Z.pow_le_mono_r; lia.
+  - rewrite Nat.max_l by exact H. apply Z.max_l. apply Z.pow_le_mono_r; lia.
+Qed.
+
+Lemma pow2_pos (j : nat) : 1 <= 2 ^ Z.of_nat j.
+Proof. pose proof (Z.pow_pos_nonneg 2 (Z.of_nat j)). lia. Qed.
+
+(* ------------------------------------------------------------------------------------------ *)
+Section WithHash.
+Variable khash : N -> N.
+Variable remap : N -> N -> Z -> option Z.
+Variable keep : N -> N -> Z -> bool.
+
+(** * The invariant *)
+
+(* Model/WF.v accepts any threshold 0 <= sc for a map without table; the lazily created table has
+   length sc, so sc must be a legal length (the implementation only ever has 0 there). *)
+Definition none_ok (s : st) : Prop :=
+  tbl s = None -> sc s = 0 \/ exists j : nat, (j <= 30)%nat /\ sc s = 2 ^ Z.of_nat j.
+
+Definition WF (s : st) : Prop := wf_b khash s = true /\ none_ok s.
+
+(* the part of WF that does not mention the counter *)
+Definition WFS (s : st) : Prop :=
+  match tbl s with
+  | None => sc s = 0 \/ exists j : nat, (j <= 30)%nat /\ sc s = 2 ^ Z.of_nat j
+  | Some t => WFT khash t /\ sc s = load_factor (tlen t)
+  end.
+
+Lemma WF_iff s : WF s <-> WFS s /\ cnt s = Z.of_nat (length (nodes s)).
+Proof.
+  destruct s as [[t|] sc0 cnt0]; unfold WF, none_ok, WFS; cbn [tbl sc cnt nodes].
+  - rewrite wf_b_some. split.
+    + intros [(H1 & H2 & H3) _]. tauto.
+    + intros [[H1 H3] H2]. split; [tauto|discriminate].
+  - unfold wf_b. cbn [tbl sc cnt length]. rewrite andb_true_iff, Z.eqb_eq, Z.leb_le. split.
+    + intros [[H1 H2] H3]. split; [apply H3; reflexivity|exact H1].
+    + intros [H1 H2]. split; [|intros _; exact H1]. split; [exact H2|].
+      destruct H1 as [->|(j & _ & ->)]; [lia|]. pose proof (pow2_pos j). lia.
+Qed.
+
+Definition tlen_s (s : st) : Z := match tbl s with None => 0 | Some t => tlen t end.
+
+(* "the counter is below the threshold unless the table cannot grow": holds in every reachable state *)
+Definition sized (s : st) : Prop :=
+  match tbl s with
+  | None => cnt s = 0
+  | Some t => cnt s < sc s \/ MAXIMUM_CAPACITY <= tlen t
+  end.
+
+Definition ent (n : node) : N * Z := (ni n, nv n).
+
+Section TreeFacts.
+Hypothesis Hyp_find : forall b h k, tb_b b = true -> t_find (troot b) h k = lb_find (tord b) h k.
+Hypothesis Hyp_new : forall l, l <> [] -> nodup_keys l = true ->
+  (forall a b, In a l -> In b l -> nk a = nk b -> nh a = nh b) -> tb_b (tb_new l) = true.
+Hypothesis Hyp_put : forall b e, tb_b b = true -> lb_find (tord b) (nh e) (nk e) = None ->
+  (forall a, In a (tord b) -> nk a <> nk e) -> tb_b (tb_put b e) = true.
+Hypothesis Hyp_set : forall b h k v, tb_b b = true -> tb_b (tb_set b h k v) = true.
+Hypothesis Hyp_remove : forall b h k b', tb_b b = true -> lb_find (tord b) h k <> None ->
+  tb_remove b h k = (b', false) -> tb_b b' = true.
+
+(* ------------------------------------------------------------------------------------------ *)
+(** * Lookups read the node listing *)
+
+Lemma bin_ok_hk len i b : bin_ok khash len i b -> hk_ok khash (bin_nodes b).
+Proof. intros H n Hn. apply (bin_ok_placed khash _ _ _ _ H Hn). Qed.
+
+Lemma bin_find_lookup len i b k :
+  bin_ok khash len i b -> bin_find b (khash k) k = lookup (bin_nodes b) k.
+Proof.
+  intros H. pose proof (bin_ok_hk _ _ _ H) as Hk. destruct b as [|l|t|]; cbn [bin_find bin_nodes] in *.
+  - reflexivity.
+  - apply lb_find_lookup; exact Hk.
+  - destruct H as [H _]. rewrite Hyp_find by exact H. apply lb_find_lookup; exact Hk.
+  - destruct H.
+Qed.
+
+Lemma get_node_some_tbl t sc0 cnt0 k :
+  WFT khash t ->
+  get_node khash (mkSt (Some t) sc0 cnt0) k = bin_find (get_bin t (bini t (khash k))) (khash k) k.
+Proof.
+  intros H. pose proof (WFT_len_pos khash t H). unfold get_node. cbn [tbl].
+  destruct t; [cbn [length] in *; lia|reflexivity].
+Qed.
+
+Lemma get_node_lookup s k : WFS s -> get_node khash s k = lookup (nodes s) k.
+Proof.
+  destruct s as [[t|] sc0 cnt0]; unfold WFS; cbn [tbl sc nodes]; [|reflexivity].
+  intros [H _]. rewrite get_node_some_tbl by exact H.
+  rewrite (bin_find_lookup (tlen t) (bini t (khash k))).
+  - symmetry. apply (WFT_lookup khash). exact H.
+  - apply (WFT_bin_ok khash); [exact H|]. apply (WFT_bini_lt khash). exact H.
+Qed.
+
+Lemma abs_lookup s k : WFS s -> abs khash s k = option_map ent (lookup (nodes s) k).
+Proof. intros H. unfold abs. rewrite get_node_lookup by exact H. reflexivity. Qed.
+
+Lemma WFS_nodup s : WFS s -> NoDup (keys (nodes s)).
+Proof.
+  destruct s as [[t|] sc0 cnt0]; unfold WFS; cbn [tbl nodes]; [|intros _; constructor].
+  intros [(_ & _ & H) _]. exact H.
+Qed.
+
+(** ** A: iteration lists exactly what lookups find *)
+
+Theorem nodes_lists_abs s : WF s -> lists (map entry (nodes s)) (abs khash s).
+Proof.
+  intros H. apply WF_iff in H as [H _]. pose proof (WFS_nodup s H) as Hd. split.
+  - rewrite map_map. exact Hd.
+  - intros k i v. rewrite abs_lookup by exact H. split.
+    + intros Hin. apply in_map_iff in Hin as (n & E & Hn). unfold entry in E. injection E as <- <- <-.
+      rewrite (lookup_in _ _ Hd Hn). reflexivity.
+    + destruct (lookup (nodes s) k) as [n|] eqn:E; cbn [option_map]; [|discriminate].
+      unfold ent. intros [= <- <-]. apply lookup_some in E as [E1 <-].
+      apply in_map_iff. exists n. split; [reflexivity|exact E1].
+Qed.
+
+Theorem wf_len s : WF s -> cnt s = Z.of_nat (length (nodes s)).
+Proof. intros H. apply WF_iff in H. apply H. Qed.
+
+(* ------------------------------------------------------------------------------------------ *)
+(** * transfer: the doubling resize *)
+
+Lemma bin_nodes_of_list l : bin_nodes (of_list l) = l.
+Proof. destruct l; reflexivity. Qed.
+
+Lemma of_list_ok len i l :
+  (forall n, In n l -> placed khash len i n) -> bin_ok khash len i (of_list l).
+Proof. destruct l; cbn [of_list bin_ok]; [trivial|]. intros H. split; [discriminate|exact H]. Qed.
+
+Lemma tb_new_ok len i l :
+  l <> [] -> NoDup (keys l) -> (forall n, In n l -> placed khash len i n) ->
+  bin_ok khash len i (BTree (tb_new l)).
+Proof.
+  intros Hne Hd Hp. cbn [bin_ok tb_new tord]. split; [|exact Hp].
+  apply Hyp_new; [exact Hne|apply nodup_keys_iff; exact Hd|].
+  intros a b Ha Hb E. destruct (Hp a Ha) as [-> _]. destruct (Hp b Hb) as [-> _]. rewrite E. reflexivity.
+Qed.
+
+(* one half of a split tree bin *)
+Lemma half_ok len i (t : tbin) (l : list node) (untree other : bool) :
+  (forall n, In n l -> placed khash len i n) -> NoDup (keys l) ->
+  (untree = false -> l <> []) ->
+  (other = false -> l = tord t /\ tb_b t = true) ->
+  let b' := if untree then of_list l else if other then BTree (tb_new l) else BTree t in
+  bin_ok khash len i b' /\ bin_nodes b' = l.
+Proof.
+  intros Hp Hd Hne Hoth. cbv zeta. destruct untree.
+  - split; [apply of_list_ok; exact Hp|apply bin_nodes_of_list].
+  - destruct other.
+    + split; [|reflexivity]. apply tb_new_ok; auto.
+    + destruct (Hoth eq_refl) as [E Ht]. cbn [bin_ok bin_nodes]. rewrite <- E.
+      split; [|reflexivity]. split; [exact Ht|exact Hp].
+Qed.
+
+Lemma split_bin_ok (j : nat) i b :
+  bin_ok khash (2 ^ Z.of_nat j) i b -> NoDup (keys (bin_nodes b)) ->
+  let lo := fst (split_bin (Z.to_N (2 ^ Z.of_nat j)) b) in
+  let hi := snd (split_bin (Z.to_N (2 ^ Z.of_nat j)) b) in
+  bin_ok khash (2 ^ Z.of_nat (S j)) i lo /\ bin_ok khash (2 ^ Z.of_nat (S j)) (i + 2 ^ j) hi /\
+  Permutation (bin_nodes lo ++ bin_nodes hi) (bin_nodes b).
+Proof.
+  intros Hok Hd. cbv zeta. set (n := Z.to_N (2 ^ Z.of_nat j)).
+  (* the two halves of any partition by the bit are placed in the doubled table *)
+  assert (Hhalves : forall l lo hi,
+    (forall x, In x l -> placed khash (2 ^ Z.of_nat j) i x) -> NoDup (keys l) ->
+    Permutation (lo ++ hi) l ->
+    (forall x, In x lo -> hbit n x = false) -> (forall x, In x hi -> hbit n x = true) ->
+    (forall x, In x lo -> placed khash (2 ^ Z.of_nat (S j)) i x) /\
+    (forall x, In x hi -> placed khash (2 ^ Z.of_nat (S j)) (i + 2 ^ j) x) /\
+    NoDup (keys lo) /\ NoDup (keys hi)).
+  { intros l lo hi Hp Hdl Hperm Hlo Hhi.
+    assert (Hd' : NoDup (keys (lo ++ hi))).
+    { eapply Permutation_NoDup; [apply Permutation_sym, keys_perm; exact Hperm|exact Hdl]. }
+    rewrite keys_app in Hd'. apply NoDup_app_iff in Hd' as (D1 & D2 & _).
+    split; [|split; [|split; assumption]].
+    - intros x Hx. assert (Hin : In x l).
+      { eapply Permutation_in; [exact Hperm|]. apply in_or_app; left; exact Hx. }
+      pose proof (placed_split khash j i x (Hp x Hin)) as P. fold n in P. rewrite (Hlo x Hx) in P. exact P.
+    - intros x Hx. assert (Hin : In x l).
+      { eapply Permutation_in; [exact Hperm|]. apply in_or_app; right; exact Hx. }
+      pose proof (placed_split khash j i x (Hp x Hin)) as P. fold n in P. rewrite (Hhi x Hx) in P. exact P. }
+  destruct b as [|l|t|]; cbn [split_bin bin_ok bin_nodes] in *.
+  - cbn [fst snd bin_ok bin_nodes app]. split; [trivial|]. split; [trivial|constructor].
+  - destruct Hok as [Hne Hp]. destruct (lb_split n l) as [lo hi] eqn:E.
+    apply lb_split_spec in E as (Hperm & Hlo & Hhi).
+    destruct (Hhalves l lo hi Hp Hd Hperm Hlo Hhi) as (P1 & P2 & _ & _).
+    cbn [fst snd]. rewrite !bin_nodes_of_list.
+    split; [apply of_list_ok; exact P1|]. split; [apply of_list_ok; exact P2|exact Hperm].
+  - destruct Hok as [Ht Hp]. destruct (ord_split n (tord t)) as [lo hi] eqn:E.
+    apply ord_split_spec in E as (Hperm & Hlo & Hhi & Hhi0 & Hlo0).
+    destruct (Hhalves (tord t) lo hi Hp Hd Hperm Hlo Hhi) as (P1 & P2 & D1 & D2).
+    cbn [fst snd].
+    destruct (half_ok (2 ^ Z.of_nat (S j)) i t lo
+                (split_untreeify_low (Z.of_nat (length lo))) (negb (Z.of_nat (length hi) =? 0)))
+      as [A1 A2]; [exact P1|exact D1| | |].
+    { unfold split_untreeify_low, UNTREEIFY_THRESHOLD. intros C ->. cbn [length] in C. discriminate. }
+    { intros C. apply negb_false_iff, Z.eqb_eq in C. split; [|exact Ht]. apply Hhi0.
+      destruct hi; [reflexivity|]. cbn [length] in C. lia. }
+    destruct (half_ok (2 ^ Z.of_nat (S j)) (i + 2 ^ j) t hi
+                (split_untreeify_high (Z.of_nat (length hi))) (negb (Z.of_nat (length lo) =? 0)))
+      as [B1 B2]; [exact P2|exact D2| | |].
+    { unfold split_untreeify_high, UNTREEIFY_THRESHOLD. intros C ->. cbn [length] in C. discriminate. }
+    { intros C. apply negb_false_iff, Z.eqb_eq in C. split; [|exact Ht]. apply Hlo0.
+      destruct lo; [reflexivity|]. cbn [length] in C. lia. }
+    split; [exact A1|]. split; [exact B1|]. rewrite A2, B2. exact Hperm.
+  - destruct Hok.
+Qed.
+
+Lemma flat_map_map {A B C} (f : B -> list C) (g : A -> B) l :
+  flat_map f (map g l) = flat_map (fun x => f (g x)) l.
+Proof. induction l as [|a l IH]; cbn [map flat_map]; [reflexivity|]. rewrite IH. reflexivity. Qed.
+
+Lemma flat_map_perm2 {A B} (f g h : A -> list B) l :
+  (forall a, In a l -> Permutation (f a ++ g a) (h a)) ->
+  Permutation (flat_map f l ++ flat_map g l) (flat_map h l).
+Proof.
+  induction l as [|a l IH]; intros H; cbn [flat_map]; [constructor|].
+  rewrite <- app_assoc.
+  etransitivity; [apply Permutation_app_head, Permutation_app_swap_app|].
+  rewrite app_assoc. apply Permutation_app.
+  - apply H. left; reflexivity.
+  - apply IH. intros b Hb. apply H. right; exact Hb.
+Qed.
+
+Lemma WFT_bin_nodup t i b :
+  WFT khash t -> nth_error t i = Some b -> NoDup (keys (bin_nodes b)).
+Proof.
+  intros H Hi. assert (Hlt : (i < length t)%nat) by (apply nth_error_Some; congruence).
+  pose proof (WFT_rest_nodup khash t i H Hlt) as Hd. rewrite keys_app in Hd.
+  apply NoDup_app_iff in Hd as [Hd _]. rewrite get_bin_nth_error in Hi by exact Hlt.
+  injection Hi as <-. exact Hd.
+Qed.
+
+Lemma transfer_all_ok t :
+  WFT khash t -> tlen t < MAXIMUM_CAPACITY ->
+  WFT khash (transfer_all t) /\
+  Permutation (flat_map bin_nodes t) (flat_map bin_nodes (transfer_all t)) /\
+  tlen (transfer_all t) = 2 * tlen t.
+Proof.
+  intros H Hlt. pose proof H as ((j & Hj & E) & Hb & Hd).
+  pose proof (tlen_pow2 t j E) as El. rewrite MAXIMUM_CAPACITY_eq in Hlt.
+  assert (Hj' : (j < 30)%nat).
+  { rewrite El in Hlt. change 30 with (Z.of_nat 30) in Hlt. apply Z.pow_lt_mono_r_iff in Hlt; lia. }
+  unfold transfer_all. rewrite El. set (n := Z.to_N (2 ^ Z.of_nat j)).
+  set (parts := map (split_bin n) t).
+  assert (Elen : length (map fst parts ++ map snd parts) = (2 ^ S j)%nat).
+  { unfold parts. rewrite app_length, !map_length, E. cbn [Nat.pow]. lia. }
+  assert (Etl : tlen (map fst parts ++ map snd parts) = 2 ^ Z.of_nat (S j)).
+  { apply tlen_pow2. exact Elen. }
+  assert (Hperm : Permutation (flat_map bin_nodes t)
+                              (flat_map bin_nodes (map fst parts ++ map snd parts))).
+  { rewrite flat_map_app. unfold parts. rewrite !map_map, !flat_map_map. apply Permutation_sym.
+    apply flat_map_perm2. intros b Hin. apply In_nth_error in Hin as [i Hi].
+    pose proof (Hb i b Hi) as Hok. rewrite El in Hok.
+    apply (split_bin_ok j i b Hok (WFT_bin_nodup t i b H Hi)). }
+  split; [|split].
+  - split; [|split].
+    + exists (S j). split; [lia|exact Elen].
+    + intros i b Hi. rewrite Etl.
+      destruct (Nat.lt_ge_cases i (length t)) as [Hlo|Hhi].
+      * rewrite nth_error_app1 in Hi by (unfold parts; rewrite !map_length; exact Hlo).
+        unfold parts in Hi. rewrite map_map, nth_error_map in Hi.
+        destruct (nth_error t i) as [b0|] eqn:Hi0; [|discriminate]. injection Hi as <-.
+        pose proof (Hb i b0 Hi0) as Hok. rewrite El in Hok.
+        apply (split_bin_ok j i b0 Hok (WFT_bin_nodup t i b0 H Hi0)).
+      * rewrite nth_error_app2 in Hi by (unfold parts; rewrite !map_length; exact Hhi).
+        unfold parts in Hi. rewrite !map_length in Hi. rewrite map_map, nth_error_map in Hi.
+        destruct (nth_error t (i - length t)) as [b0|] eqn:Hi0; [|discriminate]. injection Hi as <-.
+        pose proof (Hb _ b0 Hi0) as Hok. rewrite El in Hok.
+        replace i with (i - length t + 2 ^ j)%nat at 1 by lia.
+        apply (split_bin_ok j _ b0 Hok (WFT_bin_nodup t _ b0 H Hi0)).
+    + eapply Permutation_NoDup; [apply keys_perm; exact Hperm|exact Hd].
+  - exact Hperm.
+  - rewrite Etl, Nat2Z.inj_succ, Z.pow_succ_r by lia. reflexivity.
+Qed.
+
+End TreeFacts.
+End WithHash.
